@@ -1,2 +1,4 @@
 pub mod c06;
+pub mod c09;
+pub mod c11;
 pub mod c14;
